@@ -33,6 +33,7 @@ def gen_data_params(rng, *, n_files=None, small=False, tie_free=True, level_cols
         "dup_scan_frac": rng.choice([0.0, 0.0, 0.15]),
         "lower_better": None,
         "strong": None,
+        "nan_feature": rng.choice([0, 0, 0, 1, 3]),
     }
 
 
@@ -57,6 +58,16 @@ def build_tables(dp):
             file_id=f,
             dup_scan_frac=dp.get("dup_scan_frac", 0.0),
         )
+        if dp.get("nan_feature"):
+            # a feature with a few missing values, placed after the tag column so that the tag's position among the
+            # parsed features does not depend on whether it is dropped; a faithful parse always drops it
+            r2 = random.Random(f"nan|{dp['data_seed']}|{f}")
+            n = len(t["rows"])
+            miss = set(r2.sample(range(n), min(n, dp["nan_feature"])))
+            ci = t["columns"].index("tag") + 1
+            t["columns"].insert(ci, "fnan")
+            for ri, row in enumerate(t["rows"]):
+                row.insert(ci, None if ri in miss else float(f"{r2.gauss(0.0, 1.0):.6f}"))
         out.append(t)
     return out
 
